@@ -1287,6 +1287,8 @@ class Channel(ClosingContextManager):
         m.add_byte(cMSG_CHANNEL_EOF)
         m.add_int(self.remote_chanid)
         self.eof_sent = True
+        # writers parked waiting for window must re-check: nothing more goes
+        self.out_buffer_cv.notify_all()
         self._log(DEBUG, "EOF sent ({})".format(self._name))
         if self._sends_in_flight > 0:
             # goes out right after the data that is still on its way
